@@ -306,19 +306,46 @@ def _s10(ctx):
     ctx.ob("S10", STREAM, "Gate", "disabled: sink.ready = the configured constant, nothing forwarded", ok, "" if ok else f"{[(a.v, a.gtext()) for a in rd]}")
     # ---- SyncFIFO arms
     fx = fx_of(ctx, STREAM, "SyncFIFO")
-    d0 = [c for c in fx.conns if ("depth == 0", True) in c["pyguards"]]
-    ok = len(d0) == 1 and norm(d0[0]["conn"].src) == "self.sink" and norm(d0[0]["conn"].dst) == "self.source" and d0[0]["conn"].omit is None
-    ctx.ob("S10", STREAM, "SyncFIFO", "depth 0: plain connect", ok, "" if ok else "depth-0 arm changed")
-    b1 = [i for i in fx.insts if i.cls == "Buffer" and ("depth == 1", True) in i.pyguards]
-    ok = len(b1) == 1
     init = m.method("SyncFIFO", "__init__")
+    # which arm is built is decided by evaluating the Python-level guards for depth = 0..4 (any spelling of the three-way test)
+    bad = {}
+    for d_ in range(5):
+        conns = [c for c in fx.conns if q.pg_active(c["pyguards"], {"depth": d_})]
+        bufs = [i for i in fx.insts if i.cls == "Buffer" and q.pg_active(i.pyguards, {"depth": d_})]
+        fifos = [i for i in fx.insts if i.name == "self.fifo" and q.pg_active(i.pyguards, {"depth": d_})]
+        if d_ == 0:
+            ok = len(conns) == 1 and norm(conns[0]["conn"].src) == "self.sink" and norm(conns[0]["conn"].dst) == "self.source" and \
+                conns[0]["conn"].omit is None and not bufs and not fifos
+        elif d_ == 1:
+            ok = len(bufs) == 1 and not conns and not fifos
+        else:
+            ok = len(fifos) == 1 and not conns and not bufs
+        if not ok:
+            bad[d_] = f"depth={d_}: connects {len(conns)}, Buffers {len(bufs)}, FIFOs {len(fifos)}"
+    ctx.ob("S10", STREAM, "SyncFIFO", "depth 0: plain connect", 0 not in bad, bad.get(0, ""), init)
+    b1 = [i for i in fx.insts if i.cls == "Buffer" and q.pg_active(i.pyguards, {"depth": 1})]
+    bname = None
+    if len(b1) == 1:
+        for n in ast.walk(init):
+            if isinstance(n, ast.Assign) and isinstance(n.value, ast.Call) and norm(n.value.func) == "Buffer" and isinstance(n.targets[0], ast.Name):
+                bname = n.targets[0].id
     al = {norm(n.targets[0]): norm(n.value) for n in ast.walk(init) if isinstance(n, ast.Assign) and norm(n.targets[0]) in ("self.sink", "self.source") and
-          norm(n.value).startswith("buf.")}
-    ok = ok and al == {"self.sink": "buf.sink", "self.source": "buf.source"}
-    ctx.ob("S10", STREAM, "SyncFIFO", "depth 1: a Buffer whose sink/source are exposed", ok, "" if ok else f"{al}")
-    f2 = [i for i in fx.insts if i.name == "self.fifo" and ("2 <= depth", True) in i.pyguards]
-    ok = len(f2) == 1
-    ctx.ob("S10", STREAM, "SyncFIFO", "depth >= 2: Migen FIFO behind the wrapper", ok, "" if ok else "deep arm changed")
+          bname is not None and norm(n.value).startswith(bname + ".")}
+    ok = 1 not in bad and al == {"self.sink": f"{bname}.sink", "self.source": f"{bname}.source"}
+    ctx.ob("S10", STREAM, "SyncFIFO", "depth 1: a Buffer whose sink/source are exposed", ok, "" if ok else f"{bad.get(1, '')} {al}", init)
+    deep = [v for k, v in bad.items() if k >= 2]
+    ctx.ob("S10", STREAM, "SyncFIFO", "depth >= 2: Migen FIFO behind the wrapper", not deep, "; ".join(deep), init)
+    # accepted <=> stored: the handshake of the deep FIFO is the wrapper's (sink.ready = fifo.writable, fifo.we = sink.valid, decided
+    # on _FIFOWrapper); the subclasses add no driver of their own to the endpoints or the FIFO port -- a sink.ready forced high while
+    # the FIFO is not writable acknowledges a token that is never stored
+    for sub_ in ("SyncFIFO", "AsyncFIFO"):
+        fxs_ = fx_of(ctx, STREAM, sub_)
+        cd_ = m.cls(sub_)
+        extra = [a for a in fxs_.find() if a.t.startswith(("self.sink.", "self.source.", "self.fifo.")) and
+                 cd_.lineno <= a.line <= cd_.end_lineno and (sub_ != "SyncFIFO" or q.pg_active(a.pyguards, {"depth": 2}))]
+        ctx.ob("S8", STREAM, sub_, "no handshake driver besides the wrapper's", not extra,
+               "" if not extra else f"`{extra[0].t} <= {extra[0].v}` under {extra[0].gtext()}: overrides the wrapper's handshake "
+                                    f"(accepted tokens are no longer exactly the stored ones)", extra[0].line if extra else 0)
     # ---- Pipeline: do_finalize interpreted (lxs/pyconst.py) on lists of opaque stages -- modules with sink/source endpoints, bare
     #      Endpoints, a stage listed twice in a row -- and the recorded connect() calls compared with the chain
     from .. import pyconst
